@@ -93,19 +93,21 @@ Record st := {
   exchanges : option (list ((remote * Z) * exch));     (* MessageManager._active_exchanges; None after shutdown *)
   backlogs : list (remote * list (wire * Z));          (* MessageManager._backlogs: (message, monitor) *)
   now : Z; seq : Z;                                    (* virtual clock (us), timer creation counter *)
-  ack_timeout : Z }.                                   (* the value random.uniform(ACK_TIMEOUT, ..) returns, in us *)
-Definition set_tmst s v := {| tmst := v; outgoing := outgoing s; reqs := reqs s; next_mid := next_mid s; exchanges := exchanges s; backlogs := backlogs s; now := now s; seq := seq s; ack_timeout := ack_timeout s |}.
-Definition set_outgoing s v := {| tmst := tmst s; outgoing := v; reqs := reqs s; next_mid := next_mid s; exchanges := exchanges s; backlogs := backlogs s; now := now s; seq := seq s; ack_timeout := ack_timeout s |}.
-Definition set_reqs s v := {| tmst := tmst s; outgoing := outgoing s; reqs := v; next_mid := next_mid s; exchanges := exchanges s; backlogs := backlogs s; now := now s; seq := seq s; ack_timeout := ack_timeout s |}.
-Definition set_next_mid s v := {| tmst := tmst s; outgoing := outgoing s; reqs := reqs s; next_mid := v; exchanges := exchanges s; backlogs := backlogs s; now := now s; seq := seq s; ack_timeout := ack_timeout s |}.
-Definition set_exchanges s v := {| tmst := tmst s; outgoing := outgoing s; reqs := reqs s; next_mid := next_mid s; exchanges := v; backlogs := backlogs s; now := now s; seq := seq s; ack_timeout := ack_timeout s |}.
-Definition set_backlogs s v := {| tmst := tmst s; outgoing := outgoing s; reqs := reqs s; next_mid := next_mid s; exchanges := exchanges s; backlogs := v; now := now s; seq := seq s; ack_timeout := ack_timeout s |}.
-Definition set_now s v := {| tmst := tmst s; outgoing := outgoing s; reqs := reqs s; next_mid := next_mid s; exchanges := exchanges s; backlogs := backlogs s; now := v; seq := seq s; ack_timeout := ack_timeout s |}.
-Definition set_seq s v := {| tmst := tmst s; outgoing := outgoing s; reqs := reqs s; next_mid := next_mid s; exchanges := exchanges s; backlogs := backlogs s; now := now s; seq := v; ack_timeout := ack_timeout s |}.
+  ack_timeout : Z;
+  refusing : list remote }.                            (* remotes for which the transport refuses datagrams synchronously (sendmsg fails) *)                                   (* the value random.uniform(ACK_TIMEOUT, ..) returns, in us *)
+Definition set_tmst s v := {| tmst := v; outgoing := outgoing s; reqs := reqs s; next_mid := next_mid s; exchanges := exchanges s; backlogs := backlogs s; now := now s; seq := seq s; ack_timeout := ack_timeout s; refusing := refusing s |}.
+Definition set_outgoing s v := {| tmst := tmst s; outgoing := v; reqs := reqs s; next_mid := next_mid s; exchanges := exchanges s; backlogs := backlogs s; now := now s; seq := seq s; ack_timeout := ack_timeout s; refusing := refusing s |}.
+Definition set_reqs s v := {| tmst := tmst s; outgoing := outgoing s; reqs := v; next_mid := next_mid s; exchanges := exchanges s; backlogs := backlogs s; now := now s; seq := seq s; ack_timeout := ack_timeout s; refusing := refusing s |}.
+Definition set_next_mid s v := {| tmst := tmst s; outgoing := outgoing s; reqs := reqs s; next_mid := v; exchanges := exchanges s; backlogs := backlogs s; now := now s; seq := seq s; ack_timeout := ack_timeout s; refusing := refusing s |}.
+Definition set_exchanges s v := {| tmst := tmst s; outgoing := outgoing s; reqs := reqs s; next_mid := next_mid s; exchanges := v; backlogs := backlogs s; now := now s; seq := seq s; ack_timeout := ack_timeout s; refusing := refusing s |}.
+Definition set_backlogs s v := {| tmst := tmst s; outgoing := outgoing s; reqs := reqs s; next_mid := next_mid s; exchanges := exchanges s; backlogs := v; now := now s; seq := seq s; ack_timeout := ack_timeout s; refusing := refusing s |}.
+Definition set_now s v := {| tmst := tmst s; outgoing := outgoing s; reqs := reqs s; next_mid := next_mid s; exchanges := exchanges s; backlogs := backlogs s; now := v; seq := seq s; ack_timeout := ack_timeout s; refusing := refusing s |}.
+Definition set_refusing s v := {| tmst := tmst s; outgoing := outgoing s; reqs := reqs s; next_mid := next_mid s; exchanges := exchanges s; backlogs := backlogs s; now := now s; seq := seq s; ack_timeout := ack_timeout s; refusing := v |}.
+Definition set_seq s v := {| tmst := tmst s; outgoing := outgoing s; reqs := reqs s; next_mid := next_mid s; exchanges := exchanges s; backlogs := backlogs s; now := now s; seq := v; ack_timeout := ack_timeout s; refusing := refusing s |}.
 
 Definition init (token0 mid0 t0 : Z) : st :=
   {| tmst := {| tm_token := token0 |}; outgoing := Some []; reqs := []; next_mid := mid0; exchanges := Some [];
-     backlogs := []; now := 0; seq := 0; ack_timeout := t0 |}.
+     backlogs := []; now := 0; seq := 0; ack_timeout := t0; refusing := [] |}.
 
 Definition get_req (s : st) (q : Z) : option creq := alookup Z.eqb q (reqs s).
 Definition upd_req (s : st) (q : Z) (c : creq) : st := set_reqs s (aset Z.eqb q c (reqs s)).
@@ -256,6 +258,40 @@ Definition on_interest_end (s : st) (q : Z) (k : key) : st :=
   | Some c => let '(c', ks) := pipe_on_interest_end c k in pop_keys (upd_req s q c') ks
   end.
 
+(* ------------------------------------------------------------------ error fan-out (defined first: a refusing transport calls it from inside send) *)
+(* the collection loop of dispatch_error (tokenmanager.py:97-104): `request_remote == remote`; for the key of a
+   multicast request the stored remote is None, and `None == <udp6 address>` is False (udp6.py:149-153: __eq__
+   returns NotImplemented for a non-address), so such entries are skipped *)
+Fixpoint collect_stoppers (r : remote) (og : list (key * Z)) : list Z :=
+  match og with
+  | [] => []
+  | ((_, None), _) :: rest => collect_stoppers r rest
+  | ((_, Some r'), q) :: rest => if r' =? r then q :: collect_stoppers r rest else collect_stoppers r rest
+  end.
+Fixpoint run_stoppers (s : st) (qs : list Z) (e : exn) : st * list output :=
+  match qs with
+  | [] => (s, [])
+  | q :: rest => let '(s1, o1) := add_exception s q e in let '(s2, o2) := run_stoppers s1 rest e in (s2, o1 ++ o2)
+  end.
+Inductive errkind := EOs | ENet (e : exn).        (* not a NetworkError (wrapped) / a NetworkError subclass instance *)
+Definition wrap_error (k : errkind) : exn := match k with EOs => NetworkError | ENet e => e end.
+(* dispatch_error (tokenmanager.py:74) *)
+Definition tm_dispatch_error (s : st) (k : errkind) (r : remote) : st * list output :=
+  match outgoing s with
+  | None => (s, [])
+  | Some og => run_stoppers s (collect_stoppers r og) (wrap_error k)
+  end.
+
+(* dispatch_error (messagemanager.py:157) *)
+Definition mm_dispatch_error (s : st) (k : errkind) (r : remote) : st * list output :=
+  match exchanges s with
+  | None => (s, [])
+  | Some _ =>
+      let '(s1, o1) := tm_dispatch_error s k r in
+      let ex' := match exchanges s1 with Some ex => Some (filter (fun e => negb (fst (fst e) =? r)) ex) | None => None end in
+      (set_backlogs (set_exchanges s1 ex') (aremove Z.eqb r (backlogs s1)), o1)
+  end.
+
 (* ------------------------------------------------------------------ MessageManager, outgoing side *)
 Definition has_exchange (r : remote) (ex : list ((remote * Z) * exch)) : bool :=
   existsb (fun e => fst (fst e) =? r) ex.
@@ -271,11 +307,18 @@ Definition _add_exchange (s : st) (r : remote) (w : wire) (monitor : Z) : st :=
   | None => s1                                          (* unreachable: no CON is sent after shutdown *)
   end.
 
+(* _send_via_transport (messagemanager.py:534) -> message_interface.send. A transport that refuses the datagram
+   synchronously (udp6.py:504: sendmsg raises OSError -> error_received, udp6.py:694 -> MessageManager.dispatch_error)
+   reports the error for that remote from INSIDE the send call; nothing goes onto the wire *)
+Definition refuses (s : st) (r : remote) : bool := existsb (Z.eqb r) (refusing s).
+Definition _send_via_transport (s : st) (r : remote) (w : wire) : st * list output :=
+  if refuses s r then mm_dispatch_error s EOs r else (s, [wire_send r w]).
+
 (* _send_initially (messagemanager.py:519); _store_response_for_duplicates has no effect here because no request
    was ever received (_recent_messages is empty) *)
 Definition _send_initially (s : st) (r : remote) (w : wire) (monitor : option Z) : st * list output :=
   let s1 := if w_mtype w =? CON then match monitor with Some m => _add_exchange s r w m | None => s end else s in
-  (s1, [wire_send r w]).
+  _send_via_transport s1 r w.
 
 (* _next_message_id (messagemanager.py:539) *)
 Definition _next_message_id (s : st) : st * Z := (set_next_mid s (Z.land 65535 (1 + next_mid s)), next_mid s).
@@ -297,37 +340,44 @@ Definition send_message (s : st) (r : remote) (mtype : option Z) (tok : token) (
     then Ok (set_backlogs s1 (aset Z.eqb r (match alookup Z.eqb r (backlogs s1) with Some l => l ++ [(w, monitor)] | None => [(w, monitor)] end) (backlogs s1)), [])
     else Ok (_send_initially s1 r w (Some monitor)).
 
-(* _continue_backlog (messagemanager.py:287): the while loop, by recursion on the remaining backlog *)
-Fixpoint _continue_backlog_loop (s : st) (r : remote) (bl : list (wire * Z)) : st * list output :=
-  match exchanges s with
-  | None => (s, [])
-  | Some ex =>
-      if has_exchange r ex then (set_backlogs s (aset Z.eqb r bl (backlogs s)), [])
-      else match bl with
-           | [] => (set_backlogs s (aremove Z.eqb r (backlogs s)), [])
-           | (w, m) :: rest =>
-               let '(s1, o1) := _send_initially (set_backlogs s (aset Z.eqb r rest (backlogs s))) r w (Some m) in
-               let '(s2, o2) := _continue_backlog_loop s1 r rest in (s2, o1 ++ o2)
-           end
+(* _continue_backlog (messagemanager.py:287). The while loop re-reads self._backlogs[remote] in every round (KeyError
+   if a refused transmission inside the loop made dispatch_error drop it); fuel = rounds that can happen.
+   The boolean tells that an exception was raised (it is in the outputs as [Raised]) and aborts the caller. *)
+Fixpoint _continue_backlog_loop (fuel : nat) (s : st) (r : remote) : st * list output * bool :=
+  match fuel with
+  | O => (s, [], false)
+  | S f =>
+      match exchanges s with
+      | None => (s, [], false)
+      | Some ex =>
+          if has_exchange r ex then (s, [], false)
+          else match alookup Z.eqb r (backlogs s) with
+               | None => (s, [Raised KeyError], true)
+               | Some [] => (set_backlogs s (aremove Z.eqb r (backlogs s)), [], false)
+               | Some ((w, m) :: rest) =>
+                   let '(s1, o1) := _send_initially (set_backlogs s (aset Z.eqb r rest (backlogs s))) r w (Some m) in
+                   let '(s2, o2, x) := _continue_backlog_loop f s1 r in (s2, o1 ++ o2, x)
+               end
+      end
   end.
-Definition _continue_backlog (s : st) (r : remote) : st * list output :=
+Definition _continue_backlog (s : st) (r : remote) : st * list output * bool :=
   match alookup Z.eqb r (backlogs s) with
-  | None => (s, [Crash AssertionError])
-  | Some bl => _continue_backlog_loop s r bl
+  | None => (s, [Raised AssertionError], true)        (* "backlogs/active_exchange relation violated" *)
+  | Some bl => _continue_backlog_loop (S (length bl)) s r
   end.
 
 (* _remove_exchange (messagemanager.py:265) for an incoming ACK / RST *)
-Definition _remove_exchange (s : st) (r : remote) (w : wire) : st * list output :=
+Definition _remove_exchange (s : st) (r : remote) (w : wire) : st * list output * bool :=
   match exchanges s with
-  | None => (s, [])
+  | None => (s, [], false)
   | Some ex =>
       match alookup rm_eqb (r, w_mid w) ex with
-      | None => (s, [])
+      | None => (s, [], false)
       | Some e =>
           let s1 := set_exchanges s (Some (aremove rm_eqb (r, w_mid w) ex)) in
           (* messageerror_monitor = lambda: request.add_exception(error.MessageError) (tokenmanager.py:257) *)
           let '(s2, o2) := if w_mtype w =? RST then add_exception s1 (ex_monitor e) MessageError else (s1, []) in
-          let '(s3, o3) := _continue_backlog s2 r in (s3, o2 ++ o3)
+          let '(s3, o3, x) := _continue_backlog s2 r in (s3, o2 ++ o3, x)
       end
   end.
 
@@ -368,29 +418,6 @@ Definition process_response (s : st) (r : remote) (w : wire) : bool * st * list 
       end
   end.
 
-(* the collection loop of dispatch_error (tokenmanager.py:97-104): `request_remote == remote`; for the key of a
-   multicast request the stored remote is None, and `None == <udp6 address>` is False (udp6.py:149-153: __eq__
-   returns NotImplemented for a non-address), so such entries are skipped *)
-Fixpoint collect_stoppers (r : remote) (og : list (key * Z)) : list Z :=
-  match og with
-  | [] => []
-  | ((_, None), _) :: rest => collect_stoppers r rest
-  | ((_, Some r'), q) :: rest => if r' =? r then q :: collect_stoppers r rest else collect_stoppers r rest
-  end.
-Fixpoint run_stoppers (s : st) (qs : list Z) (e : exn) : st * list output :=
-  match qs with
-  | [] => (s, [])
-  | q :: rest => let '(s1, o1) := add_exception s q e in let '(s2, o2) := run_stoppers s1 rest e in (s2, o1 ++ o2)
-  end.
-Inductive errkind := EOs | ENet (e : exn).        (* not a NetworkError (wrapped) / a NetworkError subclass instance *)
-Definition wrap_error (k : errkind) : exn := match k with EOs => NetworkError | ENet e => e end.
-(* dispatch_error (tokenmanager.py:74) *)
-Definition tm_dispatch_error (s : st) (k : errkind) (r : remote) : st * list output :=
-  match outgoing s with
-  | None => (s, [])
-  | Some og => run_stoppers s (collect_stoppers r og) (wrap_error k)
-  end.
-
 (* shutdown (tokenmanager.py:44): `while self.outgoing_requests: pop first; add_exception(LibraryShutdown)` *)
 Fixpoint tm_shutdown_loop (fuel : nat) (s : st) : st * list output :=
   match fuel with
@@ -405,16 +432,6 @@ Fixpoint tm_shutdown_loop (fuel : nat) (s : st) : st * list output :=
   end.
 
 (* ------------------------------------------------------------------ MessageManager, incoming side *)
-(* dispatch_error (messagemanager.py:157) *)
-Definition mm_dispatch_error (s : st) (k : errkind) (r : remote) : st * list output :=
-  match exchanges s with
-  | None => (s, [])
-  | Some _ =>
-      let '(s1, o1) := tm_dispatch_error s k r in
-      let ex' := match exchanges s1 with Some ex => Some (filter (fun e => negb (fst (fst e) =? r)) ex) | None => None end in
-      (set_backlogs (set_exchanges s1 ex') (aremove Z.eqb r (backlogs s1)), o1)
-  end.
-
 Definition empty_msg (mtype mid : Z) : wire :=
   {| w_mtype := mtype; w_code := EMPTY; w_mid := mid; w_token := []; w_observe := None; w_rid := 0 |}.
 
@@ -423,8 +440,9 @@ Definition empty_msg (mtype mid : Z) : wire :=
 Definition dispatch_message (s : st) (r : remote) (mcl : bool) (w : wire) : st * list output :=
   if is_request (w_code w) then (s, [Crash NotImplementedError])
   else
-    let '(s1, o1) := if (w_mtype w =? ACK) || (w_mtype w =? RST) then _remove_exchange s r w else (s, []) in
-    if (w_code w =? EMPTY) && (w_mtype w =? CON) then                      (* _process_ping *)
+    let '(s1, o1, raised) := if (w_mtype w =? ACK) || (w_mtype w =? RST) then _remove_exchange s r w else (s, [], false) in
+    if raised then (s1, o1)                                                (* the exception leaves dispatch_message *)
+    else if (w_code w =? EMPTY) && (w_mtype w =? CON) then                      (* _process_ping *)
       let '(s2, o2) := _send_initially s1 r (empty_msg RST (w_mid w)) None in (s2, o1 ++ o2)
     else if (w_code w =? EMPTY) && ((w_mtype w =? ACK) || (w_mtype w =? RST)) then (s1, o1)
     else if is_response (w_code w) && ((w_mtype w =? CON) || (w_mtype w =? NON) || (w_mtype w =? ACK)) then
@@ -448,13 +466,19 @@ Definition _retransmit (s : st) (r : remote) (mid : Z) : st * list output :=
       | Some e =>
           let s1 := set_exchanges s (Some (aremove rm_eqb (r, mid) ex)) in
           if ex_counter e <? 4 then                                        (* MAX_RETRANSMIT *)
-            let e' := {| ex_monitor := ex_monitor e; ex_due := now s1 + 2 * ex_timeout e; ex_seq := seq s1;
+            let '(s2, o2) := _send_via_transport s1 r (ex_msg e) in
+            let e' := {| ex_monitor := ex_monitor e; ex_due := now s2 + 2 * ex_timeout e; ex_seq := seq s2;
                          ex_timeout := 2 * ex_timeout e; ex_counter := ex_counter e + 1; ex_msg := ex_msg e |} in
-            (set_seq (set_exchanges s1 (Some (aset rm_eqb (r, mid) e' (aremove rm_eqb (r, mid) ex)))) (seq s1 + 1),
-             [wire_send r (ex_msg e)])
-          else
+            (* the exchange is put back even when the transmission was refused and dispatch_error just dropped
+               everything for this remote *)
+            match exchanges s2 with
+            | Some ex2 => (set_seq (set_exchanges s2 (Some (aset rm_eqb (r, mid) e' ex2))) (seq s2 + 1), o2)
+            | None => (s2, o2 ++ [LoopExc TypeError])
+            end
+          else if amem Z.eqb r (backlogs s1) then
             let s2 := set_backlogs s1 (aremove Z.eqb r (backlogs s1)) in
             tm_dispatch_error s2 (ENet ConRetransmitsExceeded) r
+          else (s1, [LoopExc KeyError])                                    (* del self._backlogs[message.remote] *)
       end
   end.
 
@@ -484,6 +508,7 @@ Inductive event :=
 | Err (r : remote) (k : errkind)                                  (* the transport reports an error for r *)
 | Cancel (q : Z)                                                  (* Request.response.cancel() *)
 | ObsCancel (q : Z)                                               (* ClientObservation.cancel() by the application *)
+| Refuse (r : remote) (on : bool)                                 (* the transport starts / stops refusing datagrams to r *)
 | Shutdown.                                                       (* Context.shutdown() *)
 
 (* Context.request (protocol.py:553): Pipe + Request, then (task) TokenManager.request *)
@@ -539,6 +564,8 @@ Definition step (s : st) (e : event) : st * list output :=
   | Err r k => mm_dispatch_error s k r
   | Cancel q => cancel s q
   | ObsCancel q => (obs_cancel s q, [])
+  | Refuse r on => (set_refusing s (if on then (if refuses s r then refusing s else refusing s ++ [r])
+                                     else filter (fun x => negb (x =? r)) (refusing s)), [])
   | Shutdown => shutdown s
   end.
 
